@@ -31,7 +31,7 @@ SPEC = dict(
              {"queries-that-are-a-run-of-one-byte-value": 9000, "searches-on-a-database-longer-than-its-embedding-file": 4000, "files-of-tens-of-MiB": 8, "files-over-64MiB": 3, "cli-runs-in-a-removed-working-directory": 1500, "files-wellformed-block": 1500, "files-wellformed-flow": 1500, "files-wellformed-utf16": 1000, "files-wrong-shape": 1500, "files-damaged": 1500, "files-mutated": 1500,
               "files-random-bytes": 1500, "files-deep": 300, "load-ok": 10000, "load-error": 5000, "calls-SearchUniversal": 80000,
               "calls-RecoverFromSearchFailure": 80000, "distinct_nontrivial": 5000,
-              "cli-runs-table": 5000, "cli-runs-with-results": 5000, "cli-runs-with-a-backup-file-only": 900, "calls-LoadDatabaseWithFallback": 25000, "files-wellformed-sized": 4000, "sized-over-4096": 500, "sized-procs-64": 150, "sized-procs-1": 150, "dictionary-queries": 100000}),
+              "cli-runs-table": 5000, "cli-runs-with-results": 5000, "cli-runs-with-a-backup-file-only": 900, "calls-LoadDatabaseWithFallback": 25000, "files-wellformed-sized": 4000, "sized-over-4096": 500, "sized-procs-64": 150, "sized-procs-1": 150, "dictionary-queries": 60000}),
     assumptions=["'not-found' / 'parse error' are recognised by the message class of errors.NewDatabaseNotFoundError / NewDatabaseParseError",
                  "an empty document / null / [] is accepted either as an empty list or as a parse error (not asserted)"],
 )
